@@ -140,8 +140,10 @@ pub fn run_case(line: &str) -> String {
         Ok(Ok(prev)) => fmt_res(&guarded(|| solve_warmstart(&p, prev, &cfg))),
         _ => "skipped".to_string(),
     };
-    let wadd = if p.n_constraints >= 1 {
-        let m1 = p.n_constraints - 1;
+    // wadd / wadd2 / wadd3: cold-solve the problem WITHOUT its last 1 / 2 / 3 rows, then warm-start the full problem from
+    // that solution (several appended rows need several dual pivots: seeded change C09c only shows from the second pivot on)
+    let wadd_k = |k: usize| -> String { if p.n_constraints >= k {
+        let m1 = p.n_constraints - k;
         let p0 = LpProblem::new(
             p.n_vars,
             m1,
@@ -157,6 +159,6 @@ pub fn run_case(line: &str) -> String {
         }
     } else {
         "skipped".to_string()
-    };
-    format!("cold {} ; warm {} ; wadd {}", fmt_res(&cold), warm, wadd)
+    } };
+    format!("cold {} ; warm {} ; wadd {} ; wadd2 {} ; wadd3 {}", fmt_res(&cold), warm, wadd_k(1), wadd_k(2), wadd_k(3))
 }
